@@ -261,6 +261,14 @@ def finish(res, replay_runner=None):
             unlisted.append(v)
     rc = 0
     viol_lines = []
+    # one VIOLATION line per signature (the count says how often it was seen across lanes)
+    merged = {}
+    for v in unlisted:
+        if v["sig"] in merged:
+            merged[v["sig"]]["count"] += v["count"]
+        else:
+            merged[v["sig"]] = dict(v)
+    unlisted = list(merged.values())
     for v in unlisted:
         path = write_replay(prop, v.get("check"), v["example"], v["sig"])
         line = "VIOLATION property=%s replay=%s" % (prop, path)
